@@ -49,7 +49,7 @@ fn alphabet() -> Vec<MOp> {
 }
 
 fn init_stacks() -> Vec<Vec<i64>> {
-    vec![vec![], vec![1, 1], vec![2, 0, 1], vec![i64::MAX, i64::MIN, -1, 3, 1]]
+    vec![vec![], vec![1, 1], vec![2, 0, 1], vec![i64::MAX, i64::MIN, -1, 3, 1], vec![1, 5, i64::MIN], vec![7, i64::MAX]]
 }
 
 fn short_programs(t: Tier) -> Box<dyn Iterator<Item = ExecCase>> {
@@ -79,7 +79,7 @@ fn short_programs(t: Tier) -> Box<dyn Iterator<Item = ExecCase>> {
         (0..stacks.len()).map(move |s| {
             let mut c = ExecCase::simple(prog.clone());
             c.init.stack = stacks[s].clone();
-            if s == 3 {
+            if s >= 3 {
                 c.init.memory = vec![5, 6, 7];
             }
             c
@@ -138,7 +138,7 @@ fn bytes_case() -> impl Strategy<Value = BytesCase> {
 pub fn property() -> Property {
     Property {
         id: "C05",
-        rule: "bounded-exhaustive: all programs of length <= 2 (thorough: <= 3) over {61 non-Push ops} u {Push b : 16 boundary words} from 4 initial stacks; generated: op soup, structured programs (jumps, repeats, compute) and arbitrary byte strings, from random reachable machine states (stack/memory incl. at the limits, active repeat stacks, pc), random predicate data, map-backed and scripted state answers (ragged, oversize, errors), random gas tables (0..u64::MAX) and limits; every case in the overflow-checked and the release build. Checked: no panic/abort (supervised child process), typed error or Ok, bounds after every op (stack<=4096, memory<=10240, repeat<=4096, compute depth<=1), agreement with RefVm after every op and of exec_ops/exec_bytecode with the step-wise run. Non-trivial = executes >= 3 ops and touches a boundary (boundary immediate, failing op, taken jump, or a size within 2 of its limit).",
+        rule: "bounded-exhaustive: all programs of length <= 2 (thorough: <= 3) over {61 non-Push ops} u {Push b : 16 boundary words} from 6 initial stacks; generated: op soup, structured programs (jumps, repeats, compute) and arbitrary byte strings, from random reachable machine states (stack/memory incl. at the limits, active repeat stacks, pc), random predicate data, map-backed and scripted state answers (ragged, oversize, errors), random gas tables (0..u64::MAX) and limits; every case in the overflow-checked and the release build. Checked: no panic/abort (supervised child process), typed error or Ok, bounds after every op (stack<=4096, memory<=10240, repeat<=4096, compute depth<=1), agreement with RefVm after every op and of exec_ops/exec_bytecode with the step-wise run. Non-trivial = executes >= 3 ops and touches a boundary (boundary immediate, failing op, taken jump, or a size within 2 of its limit).",
         assumptions: vec![
             "Compute breadth above the tier's cap (256 quick / 4096 thorough) is excluded by construction (known finding F-C05b) and counted as skipped",
             "programs are pre-screened by RefVm under a step budget; over-budget cases are skipped and counted",
@@ -155,6 +155,7 @@ pub fn property() -> Property {
                         2 => cases::exec_case(programs::soup(40), true).boxed(),
                         3 => cases::exec_case(programs::structured(programs::StructCfg::default()), false).boxed(),
                         1 => cases::exec_case(programs::structured(programs::StructCfg::default()), true).boxed(),
+                        1 => crate::props::c09::jump_case().boxed(),
                     ]
                 },
                 oracle,
